@@ -217,6 +217,8 @@ struct Case {
     completed: bool,
     last_join: &'static str,
     handle_held: bool,
+    exec_dropped: bool,
+    helper_ticks: u32,
     tick_rets: Vec<bool>,
     divergences: Vec<String>,
     violations: Vec<(&'static str, Value, String)>,
@@ -275,6 +277,8 @@ impl Case {
             completed: false,
             last_join: "none",
             handle_held: true,
+            exec_dropped: false,
+            helper_ticks: 0,
             tick_rets: vec![],
             divergences: vec![],
             violations: vec![],
@@ -437,6 +441,24 @@ impl Case {
             if parked == 0 {
                 return true;
             }
+            // a remote waker whose push finds the sync queue full retries until the executor drains the queue
+            // (back-pressure by design): the environment is fair, so let the home thread tick once more
+            let pushing = (1..self.roles.len()).any(|r| {
+                !self.roles[r].lost
+                    && matches!(ctl::whereis(r), Where::Parked(p) if matches!(p.site, "exec.remote.push_retry" | "exec.state.load"))
+            });
+            if pushing && _round % 25 == 24 && !self.exec_dropped && !self.roles[0].lost
+                && ctl::whereis(0) == Where::Idle && self.helper_ticks < 4
+            {
+                self.helper_ticks += 1;
+                {
+                    let mut sc = lock(&self.world.script);
+                    sc.clear();
+                    sc.push_back((1, Outcome::Pend));
+                }
+                self.command(0, "tick", Cmd::Tick);
+                continue;
+            }
             if progressed {
                 spins = 0;
             } else {
@@ -447,6 +469,27 @@ impl Case {
             }
         }
         false
+    }
+
+    /// Lenient mode: pass the scheduling points that exist only in the repaired code.
+    fn auto_advance(&mut self) {
+        for _ in 0..16 {
+            let mut any = false;
+            for r in 0..self.roles.len() {
+                if self.roles[r].lost {
+                    continue;
+                }
+                if let Where::Parked(p) = ctl::whereis(r) {
+                    if matches!(p.site, "exec.remote.enter" | "exec.remote.leave" | "exec.task.wait_scheduling" | "exec.remote.drop_stale_waker") {
+                        self.release(r, p.site);
+                        any = true;
+                    }
+                }
+            }
+            if !any {
+                break;
+            }
+        }
     }
 
     fn snapshot(&self) -> Value {
@@ -493,6 +536,10 @@ fn run_case(case: &Value, idx: u64, rep: &mut Report) {
     // ---- the schedule
     let steps = case["steps"].as_array().unwrap();
     let mut followed = true;
+    // lenient mode (regression schedules taken from the model of the code BEFORE a repair): scheduling points the
+    // old model does not know are passed automatically, steps that cannot be executed are skipped, nothing is
+    // compared with the model: only the contract oracle decides
+    let lenient = case["lenient"] == json!(true);
     for (i, st) in steps.iter().enumerate() {
         rep.steps += 1;
         let r = role_index(st["th"].as_str().unwrap());
@@ -501,6 +548,17 @@ fn run_case(case: &Value, idx: u64, rep: &mut Report) {
         }
         let a = st["a"].as_str().unwrap();
         let next = st["next"].as_str().unwrap();
+        if lenient {
+            c.auto_advance();
+            let executable = if st["k"] == "cmd" {
+                ctl::whereis(r) == Where::Idle
+            } else {
+                matches!(ctl::whereis(r), Where::Parked(p) if p.site == a)
+            };
+            if !executable {
+                continue;
+            }
+        }
         let arr = if st["k"] == "cmd" {
             if ctl::whereis(r) != Where::Idle {
                 c.divergences.push(format!("step {i}: {} should be idle for command {a}, is {:?}", c.roles[r].name, ctl::whereis(r)));
@@ -510,7 +568,10 @@ fn run_case(case: &Value, idx: u64, rep: &mut Report) {
             match a {
                 "tick" => c.command(r, "tick", Cmd::Tick),
                 "clear" => c.command(r, "clear", Cmd::Clear),
-                "execdrop" => c.command(r, "execdrop", Cmd::ExecDrop),
+                "execdrop" => {
+                    c.exec_dropped = true;
+                    c.command(r, "execdrop", Cmd::ExecDrop)
+                }
                 "poll" => c.command(r, "poll", Cmd::Poll(st["arg"].as_str().unwrap().parse().unwrap())),
                 "hdrop" => {
                     c.handle_held = false;
@@ -556,7 +617,7 @@ fn run_case(case: &Value, idx: u64, rep: &mut Report) {
                 break;
             }
             ref x => {
-                if arr_name(x) != next {
+                if arr_name(x) != next && !lenient {
                     c.divergences.push(format!("step {i}: after {a} thread {} arrived at {}, the model expects {next}",
                                                c.roles[r].name, arr_name(x)));
                     followed = false;
@@ -569,7 +630,10 @@ fn run_case(case: &Value, idx: u64, rep: &mut Report) {
     let fin = &case["fin"];
     let snap = c.snapshot();
     let mut diffs = vec![];
-    if followed {
+    if lenient {
+        c.auto_advance();
+    }
+    if followed && !lenient {
         let quarantined = c.roles.iter().any(|r| r.lost);
         for f in ["fdrops", "rdrops", "deallocs", "produced", "freed"] {
             // after a quarantine the rest of the model's schedule was not performed
@@ -609,8 +673,10 @@ fn finish_case(mut c: Case, case: &Value, idx: u64, rep: &mut Report, diffs: Vec
     let drained = c.drain();
     let any_lost = c.roles.iter().any(|r| r.lost);
     if !drained && !any_lost {
-        c.violations.push(("hang", json!({"site": "remote", "what": "wait_for_scheduling-never-ends"}),
-                           "the home thread spins in wait_for_scheduling although every other thread has finished".into()));
+        let at: Vec<String> = (0..c.roles.len()).map(|i| format!("{}={:?}", c.roles[i].name, ctl::whereis(i))).collect();
+        c.violations.push(("hang", json!({"site": "remote", "what": "calls-never-finish"}),
+                           format!("the started calls do not finish although every thread is scheduled fairly and the home thread \
+                                    keeps ticking (e.g. wait_for_scheduling spinning for ever): {at:?}")));
     }
     // ---- candidate 11: a joiner parked on Pending although the task has completed must have been woken
     if drained && c.joiner_parked() && !c.joiner_flag() {
@@ -705,8 +771,11 @@ fn finish_case(mut c: Case, case: &Value, idx: u64, rep: &mut Report, diffs: Vec
     }
     // ---- tear the threads down (lost threads stay parked for ever; they are detached)
     let mut ids = vec![];
+    // join only when every thread is idle and everything was released: a thread that still owns the executor
+    // would block in Executor::drop behind a thread that is parked for ever
+    let all_idle = released && (0..c.roles.len()).all(|i| !c.roles[i].lost && ctl::whereis(i) == Where::Idle);
     for r in c.roles.iter_mut() {
-        if !r.lost && ctl::whereis(role_index(r.name)) == Where::Idle {
+        if all_idle {
             let _ = r.tx.send(Cmd::Exit);
             if let Some(th) = r.th.take() {
                 ids.push(th.thread().id());
